@@ -6,6 +6,8 @@ package main
 //
 //	Marshal  → bytes → item tree (c16mp.go, the harness' own reader)   vs   model `mp.marshal`
 //	Unmarshal of those bytes, of mutated item trees and of hand-made items   vs   model `mp.unmarshal`
+//	  (number equality inside the refinement builder as the code does it) and `mp.unmarshalx` (the exact
+//	  oracle the theorems are stated for; it answers `unmodelled` where the two could differ)
 //	ImpliedType                                                         vs   model `mp.implied`
 //	cty.ParseNumberVal                                                  vs   model `mp.parse`
 //
@@ -939,6 +941,7 @@ func c16Case(ctx *Ctx, v cty.Value, ct cty.Type, tag string) {
 			dimpl = "ok " + canonVal(dec)
 		}
 		ctx.Add("mp.unmarshal", dimpl, tree.wire(), tw)
+		ctx.Add("mp.unmarshalx", dimpl, tree.wire(), tw) // the exact oracle of the theorems: must agree wherever it answers
 	}
 	ulit := "b, _ := " + lit + "; msgpack.Unmarshal(b, " + c16TyLit(ct) + ")"
 	// the hypotheses of C16.roundtrip_covers must imply that the real round trip is fine
@@ -1028,6 +1031,7 @@ func c16Decode(ctx *Ctx, it *mpItem, ct cty.Type, tag string) {
 		dimpl = "ok " + canonVal(dec)
 	}
 	ctx.Add("mp.unmarshal", dimpl, back.wire(), encTy(ct))
+	ctx.Add("mp.unmarshalx", dimpl, back.wire(), encTy(ct))
 	c16Implied(ctx, b, back)
 }
 
